@@ -431,6 +431,28 @@ def case_layout(col, p):
             after = np.array(newv.data if isinstance(newv, np.ma.MaskedArray) else newv)
             if k not in inplace and not np.array_equal(before, after, equal_nan=True):
                 col.violation('C20:%s:layout:argument_modified' % nm, info, '')
+    # parameter vectors given as a list may just as well be given as a float array (what the optimisers return): same value, array untouched
+    for k, v in args0.items():
+        if not (isinstance(v, (list, tuple)) and v and all(isinstance(x, (int, float)) and not isinstance(x, bool) for x in v)):
+            continue
+        args = factory()
+        newv = np.array(v, dtype=float)
+        args[k] = newv
+        before = newv.copy()
+        MS.clear()
+        info = dict(p, argument=k, layout='float_array_instead_of_list')
+        try:
+            res = call(args)
+        except Exception as e:
+            col.violation('C20:%s:layout:float_array:raises' % nm, info, '%s: %s' % (type(e).__name__, str(e)[:200]))
+            continue
+        col.tick(transitions=1)
+        n += 1
+        got = canon_result(res)
+        if got[0].shape != ref[0].shape or not np.allclose(got[0], ref[0], rtol=1e-12, atol=1e-300, equal_nan=True):
+            col.violation('C20:%s:layout:float_array:different_result' % nm, info, '')
+        if k not in inplace and not np.array_equal(before, newv, equal_nan=True):
+            col.violation('C20:%s:layout:argument_modified' % nm, info, {'before': before, 'after': np.array(newv)})
     MS.clear()
     col.tick(states=n, traces=n)
     col.distinct('nontrivial', ('layout', nm))
